@@ -47,10 +47,25 @@ type Contract struct {
 	File      string
 	Model     bool // from /verif/models (assumption)
 	Labels    []Clause // secret/public/declassify (C20)
+	Sets      []GhostSet // ghost assignments made at return: sets name := expr
+	Acquires  []Clause   // declared locks the function takes (and releases) itself: acquires c.mux
 	Raw       map[string][]string
 }
 
 func (c *Contract) HasFrame() bool { return c != nil && (c.HasMod || c.Pure) }
+
+// GhostSet is a ghost assignment "sets name := expr" performed when the function returns; callers see the new
+// value of the ghost variable, the function itself has nothing to prove about it.
+type GhostSet struct {
+	Name string
+	Cl   Clause
+}
+
+// GhostVar is a program-wide ghost variable declared with "//@ ghost name type".
+type GhostVar struct {
+	Name, Sort string
+	T    types.Type
+}
 
 type Define struct {
 	Name   string
@@ -70,7 +85,7 @@ type TypeSpec struct {
 	Attrs  map[string]string
 }
 
-var clauseKeywords = map[string]bool{"requires": true, "ensures": true, "modifies": true, "loop": true, "decreases": true,
+var clauseKeywords = map[string]bool{"requires": true, "ensures": true, "modifies": true, "loop": true, "decreases": true, "sets": true, "acquires": true, "guards": true, "lockinv": true,
 	"trusted": true, "pure": true, "may_panic": true, "inline": true, "noinline": true, "reveal": true, "field": true,
 	"secret": true, "public": true, "declassify": true, "level": true, "sink": true, "source": true, "trusted_frame": true, "trusted_ensures": true, "seq_extensionality": true, "atomic": true, "rely": true}
 
@@ -157,6 +172,36 @@ func (p *Program) parseContractFile(file, text string, model bool) error {
 			lastClause = &Clause{Text: d.Text}
 			lastDefine = d
 			d.E, _ = ParseCExpr(d.Text)
+		case word == "ghost":
+			// ghost name type   (bool, int, string, error, Seq, Ref)
+			fs := strings.Fields(rest)
+			if len(fs) != 2 {
+				return fmt.Errorf("%s: ghost needs 'name type'", loc)
+			}
+			gv := &GhostVar{Name: fs[0]}
+			switch fs[1] {
+			case "bool":
+				gv.Sort, gv.T = SBool, types.Typ[types.Bool]
+			case "int":
+				gv.Sort, gv.T = BV(64), types.Typ[types.Int]
+			case "int32":
+				gv.Sort, gv.T = BV(32), types.Typ[types.Int32]
+			case "string":
+				gv.Sort, gv.T = SStr, types.Typ[types.String]
+			case "error":
+				gv.Sort, gv.T = SIface, types.Universe.Lookup("error").Type()
+			case "Seq":
+				gv.Sort = "BSeq"
+			case "Ref":
+				gv.Sort = SInt
+			default:
+				return fmt.Errorf("%s: ghost type %s not supported", loc, fs[1])
+			}
+			if p.Ghosts == nil {
+				p.Ghosts = map[string]*GhostVar{}
+			}
+			p.Ghosts[gv.Name] = gv
+			cur, curT, lastClause = nil, nil, nil
 		case word == "assume_obligation":
 			// assume_obligation <obligation name prefix> :: reason
 			parts := strings.SplitN(rest, "::", 2)
@@ -222,6 +267,21 @@ func (p *Program) parseContractFile(file, text string, model bool) error {
 					cur.Ensures = append(cur.Ensures, cl)
 					lastClause = &cur.Ensures[len(cur.Ensures)-1]
 				}
+			case "acquires":
+				cl, err := mk(rest)
+				if err != nil {
+					return fmt.Errorf("%s: %v", loc, err)
+				}
+				cur.Acquires = append(cur.Acquires, cl)
+				lastClause = nil
+			case "sets":
+				parts := strings.SplitN(rest, ":=", 2)
+				if len(parts) != 2 {
+					return fmt.Errorf("%s: sets needs ':='", loc)
+				}
+				cl, _ := mk(strings.TrimSpace(parts[1]))
+				cur.Sets = append(cur.Sets, GhostSet{Name: strings.TrimSpace(parts[0]), Cl: cl})
+				lastClause = &cur.Sets[len(cur.Sets)-1].Cl
 			case "modifies":
 				cur.HasMod = true
 				lastClause = nil
@@ -547,7 +607,13 @@ func (p *cparser) parseExpr() *CExpr {
 			for {
 				n := p.expect(token.IDENT)
 				ty := p.expect(token.IDENT)
-				q.Vars = append(q.Vars, CVar{n.lit, ty.lit})
+				tyName := ty.lit
+				if p.cur().tok == token.PERIOD {
+					// qualified type name pkg.T
+					p.next()
+					tyName += "." + p.expect(token.IDENT).lit
+				}
+				q.Vars = append(q.Vars, CVar{n.lit, tyName})
 				if p.cur().tok == token.COMMA {
 					p.next()
 					continue
@@ -716,6 +782,11 @@ func (p *cparser) parsePostfix(x *CExpr) *CExpr {
 // used only inside transitive ModSet computation (loop havoc); call sites use the precise clause.
 func (c *Contract) modHeapsApprox(p *Program, f interface{}) map[string]string {
 	out := map[string]string{}
+	for _, gs := range c.Sets {
+		if gv := p.Ghosts[gs.Name]; gv != nil {
+			out["GH.u."+gs.Name] = gv.Sort
+		}
+	}
 	if c.Pure || len(c.Modifies) == 0 {
 		return out
 	}
@@ -732,6 +803,9 @@ func (c *Contract) modHeapsApprox(p *Program, f interface{}) map[string]string {
 	}
 	precise := true
 	pout := map[string]string{}
+	for k, v := range out {
+		pout[k] = v
+	}
 	for _, m := range c.Modifies {
 		if !lvHeaps(m.E, ptypes, pout) {
 			precise = false
